@@ -51,6 +51,9 @@ def configs(tier, seed):
     cfgs.append(dict(backend='dict', backoff='r10', n=1, harness_wait=True, script=[E0, ['announce', 0], F], d=d, dd=2, menu=MENU))
     cfgs.append(dict(backend='dict', backoff='r10', n=1, harness_wait=True, prestored=1, prestored_due=10.0,
                      script=[['announce', 0], E0, ['announce', 1]], d=d, dd=2, menu=MENU))
+    # an announcement arriving while the retry bookkeeping is still being written (slow storage)
+    cfgs.append(dict(backend='dict', backoff='r10', n=1, harness_wait=True, slow_ops=['set_timestamp', 'increment_attempts'],
+                     script=[E0, ['announce', 0]], d=3, dd=1, menu=MENU))
     # pools
     cfgs.append(dict(backend='dict', backoff='r5-5', n=1, script=[E0, E1, F], relay_pool=1, d=d, dd=2, menu=MENU))
     cfgs.append(dict(backend='dict', backoff='r5-5', n=1, script=[E0, E1], store_pool=2, relay_pool=2, d=d, dd=2, menu=MENU))
